@@ -93,7 +93,8 @@ PROPS["C04"] = {
     "level_note": "Trusted: go/ssa, the executor's encoding, z3. Quick tier pins the slot position of the wheel time on each level to representative values (each level's wrap-around included); the thorough tier pins a wider family (first, middle and last slots of every level, 17 tuples); with every position symbolic the step lemma did not finish within 45 minutes on 16 cores and is therefore not registered. Advances between 2^31 ns and a full rotation of all wheels (2^51 ns) are outside the step lemma (covered only by the jump lemma at and above 2^51). Store-level scheduling calls are exercised by the C02/C05 programs.",
     "assumptions": ["invariant Inv(level, slot, N, E) as pre-state of the step (ZZ_C04_Base and ZZ_C04_Resched show schedule() establishes it)", "0 <= times < 2^62 ns"],
     "outside_bound": ["single advances longer than 2^31 ns and shorter than 2^51 ns", "more than 3 entries per slot", "deadlines at or behind the wheel time at schedule() (Store filters these for NEW events)"],
-    "quick": [H("ZZ_C04_Base", reach=["placed"], bounds="all N<E<2^62")] +
+    "quick": [H("ZZ_C02_ArrivalWindow", params={"PRE": 1}, reach=["settled"], bounds="an entry whose deadline is extended while its insert event is expired on arrival is on the wheel afterwards"),
+              H("ZZ_C04_Base", reach=["placed"], bounds="all N<E<2^62")] +
              [H("ZZ_C04_Step", params=p, reach=["advanced", "removed", "kept"], bounds="G=2^31, wheel-time slot positions pinned: %s" % p) for p in _c04_step_quick] +
              [H("ZZ_C04_Resched", reach=["rescheduled"]), H("ZZ_C04_Deschedule", reach=["descheduled"]),
               H("ZZ_C04_Slot3", params={"P0": 5}, reach=["advanced"]), H("ZZ_C04_Jump", reach=["jumped"], bounds="jump >= 2^51 ns, wheel time = 1234567 ticks + symbolic offset"),
@@ -149,7 +150,10 @@ PROPS["C06"] = {
     "level_note": "Trusted: go/ssa, executor encoding, z3, the clock/ticker stubs, concrete hash (one fixed mixing function; two keys), one read stripe. MaxSize 3, histories of N=2 (quick) / 3 (thorough) calls; TTL <= 2^29 ns and advances <= 2^30 ns so that entries stay on the finest wheel (C04 covers placement). (The former known finding, a plain Set on an expired, unreclaimed key keeping the passed deadline, has been repaired in the repository.)",
     "assumptions": ["fresh cached clock before every read (staleness is C03)", "single client thread; maintenance runs at the client's blocking points"],
     "outside_bound": ["histories longer than N", "more than two keys", "MaxSize other than 3", "TTL > 2^29 ns"],
-    "quick": [H("ZZ_C06_History", params={"N": 2}, reach=["history-done", "set-true", "set-false"], bounds="N=2 calls, cap 3, doorkeeper off"),
+    "quick": [H("ZZ_C02_ArrivalWindow", params={"PRE": 1}, reach=["settled"], bounds="an accepted Set that extends the deadline while the insert event of the key is being expired on arrival is not lost"),
+              H("ZZ_C06_PoolStaleUpdate", params={"POOL": 1, "PRE": 1}, reach=["drained", "collected-while-writer-delayed"], bounds="entry pool on, no capacity pressure: a delayed update event of an expired and re-inserted key evicts nothing (update cost 2..9 symbolic)"),
+              H("ZZ_C02_PoolStaleUpdate", params={"PRE": 1, "POOL": 1}, reach=["drained"], bounds="entry pool on: same-key reuse guard"),
+              H("ZZ_C06_History", params={"N": 2}, reach=["history-done", "set-true", "set-false"], bounds="N=2 calls, cap 3, doorkeeper off"),
               H("ZZ_C06_History", params={"N": 2, "DOOR": 1}, reach=["history-done", "set-false"], bounds="N=2 calls, cap 3, doorkeeper on"),
               H("ZZ_C06_ExpiredUpdate", reach=["second-set"]),
               H("ZZ_C06_Doorkeeper", reach=["three-sets", "first-sight-rejected"], bounds="arbitrary doorkeeper reset counter and filter contents (inductive state), one key offered three times"),
@@ -157,7 +161,8 @@ PROPS["C06"] = {
               H("ZZ_C02_ExpiryWindow", params={"PRE": 1}, reach=["settled"], bounds="an accepted Set that extends the deadline of an expired, uncollected entry is not lost to the expiry of the old value (atomic granularity, preemptions 1)"),
               H("ZZ_C06_PoolRecycledDeadline", params={"POOL": 1}, reach=["recycling"], bounds="entry pool on: object of an expired TTL entry recycled for a key stored without TTL; TTL <= 2^29 and later advance <= 2^41 symbolic"),
               H("ZZ_C06_PoolRecycledDeadline", params={"POOL": 1, "CAP": 1}, reach=["recycling"], bounds="same with the object of an evicted TTL entry")],
-    "thorough": [H("ZZ_C06_PoolRecycledDeadline", params={"POOL": 1, "POOLMODE": 2}, reach=["recycling"]), H("ZZ_C06_PoolRecycledDeadline", params={"POOL": 1, "CAP": 1, "POOLMODE": 2}, reach=["recycling"]), H("ZZ_C02_ExpiryWindow", params={"PRE": 2}, reach=["settled"]),
+    "thorough": [H("ZZ_C06_PoolStaleUpdate", params={"POOL": 1, "PRE": 2, "POOLMODE": 2}, reach=["drained", "collected-while-writer-delayed"]),
+              H("ZZ_C06_PoolRecycledDeadline", params={"POOL": 1, "POOLMODE": 2}, reach=["recycling"]), H("ZZ_C06_PoolRecycledDeadline", params={"POOL": 1, "CAP": 1, "POOLMODE": 2}, reach=["recycling"]), H("ZZ_C02_ExpiryWindow", params={"PRE": 2}, reach=["settled"]),
                  H("ZZ_C06_History", params={"N": 3}, reach=["history-done", "set-true", "set-false"], bounds="N=3 calls, cap 3, doorkeeper off"),
                  H("ZZ_C06_History", params={"N": 3, "DOOR": 1}, reach=["history-done", "set-false"], bounds="N=3 calls, cap 3, doorkeeper on"),
                  H("ZZ_C06_ExpiredUpdate", reach=["second-set"]),
@@ -174,14 +179,16 @@ PROPS["C20"] = {
     "level_note": _thr_note + "Bounds: <=3 waiters, <=3 writes, preemption bound 1 (thorough 2), write-batch size 128 and 2.",
     "assumptions": ["writes issued before the waiters start (ZZ_C20_Waiters) or by one concurrent writer (ZZ_C20_WaitWithWriter)"],
     "outside_bound": ["more than 3 concurrent waiters", "preemption bound above 1", "timer ticks during Wait"],
-    "quick": [H("ZZ_C20_Waiters", params={"WAITERS": 2}, reach=["all-waiters-returned"], bounds="2 waiters, 3 writes + 1 delete, preemptions 0"),
+    "quick": [H("ZZ_C20_BarrierWithSave", params={"PRE": 1}, reach=["all-returned"], bounds="SaveCache concurrent with a writer that stores two keys and waits; preemptions 1"),
+              H("ZZ_C20_Waiters", params={"WAITERS": 2}, reach=["all-waiters-returned"], bounds="2 waiters, 3 writes + 1 delete, preemptions 0"),
               H("ZZ_C20_Waiters", params={"WAITERS": 2, "WB": 2}, reach=["all-waiters-returned"], bounds="2 waiters, batch size 2 (markers across batch boundaries)"),
               H("ZZ_C20_Waiters", params={"WAITERS": 1, "PRE": 1}, reach=["all-waiters-returned"], bounds="1 waiter, preemptions 1 (a wake-up delivered before the batch is applied is observable)"),
               H("ZZ_C20_Waiters", params={"WAITERS": 2, "PRE": 1}, reach=["all-waiters-returned"], bounds="2 waiters, preemptions 1"),
               H("ZZ_C20_WaitWithWriter", params={"PRE": 1}, reach=["all-returned"], bounds="1 writer x3 + 2 waiters, preemptions 1"),
               H("ZZ_C20_TwoBarriers", params={"PRE": 2}, reach=["all-returned"], bounds="two goroutines each Set then Wait: each barrier covers the caller's own write; preemptions 2"),
               H("ZZ_C20_BarrierWithBusyQueue", params={"PRE": 2}, reach=["all-returned"], bounds="Set, Set, Delete, Wait on one goroutine while another keeps the queue busy (3 writes); preemptions 2")],
-    "thorough": [H("ZZ_C20_Waiters", params={"WAITERS": 2}, reach=["all-waiters-returned"]),
+    "thorough": [H("ZZ_C20_BarrierWithSave", params={"PRE": 2}, reach=["all-returned"]),
+              H("ZZ_C20_Waiters", params={"WAITERS": 2}, reach=["all-waiters-returned"]),
                  H("ZZ_C20_Waiters", params={"WAITERS": 2, "WB": 2}, reach=["all-waiters-returned"]),
                  H("ZZ_C20_Waiters", params={"WAITERS": 3, "WRITES": 2}, reach=["all-waiters-returned"], bounds="3 waiters"),
                  H("ZZ_C20_Waiters", params={"WAITERS": 2, "PRE": 2}, reach=["all-waiters-returned"], bounds="2 waiters, preemptions 2"),
@@ -227,7 +234,8 @@ PROPS["C01"] = {
     "level_note": _thr_note + "Store-level runs use the ideal reader/writer lock in place of RBMutex (whose own protocol is the second harness). Bounds: 2 clients x 2 ops, preemption bound 0 (quick) / 1 (thorough); plain, loading, entry-pool and doorkeeper configurations.",
     "assumptions": ["switching only at synchronisation operations is sound for data-race-free code (race freedom under the same bounds is C19's subject)"],
     "outside_bound": ["more than 2 clients or 2 operations each", "preemption bound above 1 (RBMutex harness: 2)", "timer ticks during the history"],
-    "quick": [H("ZZ_C01_Linearizable", params={"PRE": 0}, reach=["history-complete"], bounds="2x2 ops, cap 1, preemptions 0"),
+    "quick": [H("ZZ_C01_LoadDeleteLoad", params={"PRE": 1}, reach=["history-complete", "deleted-after-seeing-the-loaded-value"], bounds="three clients on a loading cache: load, read-then-delete, load again after the Delete returned; preemptions 1"),
+              H("ZZ_C01_Linearizable", params={"PRE": 0}, reach=["history-complete"], bounds="2x2 ops, cap 1, preemptions 0"),
               H("ZZ_C01_Linearizable", params={"PRE": 0, "POOL": 1}, reach=["history-complete"], bounds="entry pool on"),
               H("ZZ_C01_Linearizable", params={"PRE": 0, "POOL": 1, "PRELUDE": 1}, reach=["history-complete"], bounds="entry pool on and holding a recycled entry"),
               H("ZZ_C02_PoolStaleUpdate", params={"PRE": 1, "POOL": 1}, reach=["drained"], bounds="entry pool on: same-key reuse guard (a delayed update event must not reach the new incarnation)"),
@@ -236,7 +244,8 @@ PROPS["C01"] = {
               H("ZZ_C13_LoadingWithWriter", params={"PRE": 1}, reach=["both-finished"], bounds="loading Get vs Set/Delete of the same key: load-and-store atomic with respect to writers"),
               H("ZZ_C05_DeleteVsReset", params={"PRE": 1}, reach=["drained"], bounds="Delete racing a Set of the same key: the old incarnation's eviction must not remove the new one"),
               H("ZZ_C01_RBMutex", params={"READERS": 2, "PRE": 2}, reach=["all-done"], bounds="1 writer, 2 readers, atomic granularity, preemptions 2")],
-    "thorough": [H("ZZ_C01_Linearizable", params={"PRE": 1}, reach=["history-complete"], bounds="2x2 ops, cap 1, preemptions 1"),
+    "thorough": [H("ZZ_C01_LoadDeleteLoad", params={"PRE": 2}, reach=["history-complete", "deleted-after-seeing-the-loaded-value"], bounds="preemptions 2"),
+              H("ZZ_C01_Linearizable", params={"PRE": 1}, reach=["history-complete"], bounds="2x2 ops, cap 1, preemptions 1"),
                  H("ZZ_C01_Linearizable", params={"PRE": 0, "POOL": 1, "POOLMODE": 2}, reach=["history-complete"], bounds="entry pool on, adversarial reuse"),
                  H("ZZ_C01_Linearizable", params={"PRE": 1, "POOL": 1, "POOLMODE": 2, "PRELUDE": 1}, reach=["history-complete"], bounds="entry pool holding a recycled entry, adversarial reuse, preemptions 1"),
                  H("ZZ_C01_Linearizable", params={"PRE": 0, "LOADING": 1}, reach=["history-complete"]),
@@ -252,14 +261,18 @@ PROPS["C02"] = {
     "level_note": _thr_note + "Entry pool off (as the property states) except in ZZ_C02_PoolStaleUpdate. The in-flight bound on unaccounted entries is not asserted as a running monitor; the mechanism behind it (a writer waits on the full queue rather than skipping the accounting) is exercised with a one-slot queue, where a skipped event shows up as an untracked resident entry after the drain.",
     "assumptions": ["MaxSize 2, two keys"],
     "outside_bound": ["bound on unaccounted entries while writes are in flight", "more than 2 clients / 2 ops", "preemption bound above 1"],
-    "quick": [H("ZZ_C02_Program", params={"PRE": 0}, reach=["drained"], bounds="2 clients x 2 ops, cap 2, preemptions 0, costs symbolic"),
+    "quick": [H("ZZ_C02_ArrivalWindow", params={"PRE": 1}, reach=["settled"], bounds="insert event processed after its deadline while a second writer extends the deadline (cost 1..3 symbolic), preemptions 1"),
+              H("ZZ_C06_PoolStaleUpdate", params={"POOL": 1, "PRE": 1}, reach=["drained", "collected-while-writer-delayed"], bounds="entry pool on: delayed update event vs expiry and re-insertion of the key"),
+              H("ZZ_C02_Program", params={"PRE": 0}, reach=["drained"], bounds="2 clients x 2 ops, cap 2, preemptions 0, costs symbolic"),
               H("ZZ_C02_Program", params={"PRE": 0, "WQ": 1, "OPS": 1}, reach=["drained"], bounds="one op per client with a write queue of one slot: writers block on the full queue (a writer that skipped the accounting instead would leave an untracked entry)"),
               H("ZZ_C02_ExpiryWindow", params={"PRE": 1}, reach=["settled"], bounds="TTL extension vs expiry path at atomic granularity, preemptions 1"),
               H("ZZ_C04_LateUpdate", reach=["three-ticks"], bounds="cost and TTL update processed after the new deadline: accounting stays exact"),
               H("ZZ_C02_TwoWriters", params={"PRE": 1}, reach=["drained"], bounds="two writers x 2 Sets of one key, symbolic costs, preemptions 1 (an update event may overtake the insert event)"),
               H("ZZ_C02_PoolStaleUpdate", params={"PRE": 1, "POOL": 1}, reach=["drained"], bounds="entry pool on: a delayed update event of a recycled entry, preemptions 1"),
               H("ZZ_C02_WindowCostUpdate", reach=["drained"], bounds="MaxSize 200: cost of a window entry raised (1..10 symbolic) while the main region holds 190..199")],
-    "thorough": [H("ZZ_C02_WindowCostUpdate", reach=["drained"]),
+    "thorough": [H("ZZ_C02_ArrivalWindow", params={"PRE": 2}, reach=["settled"]),
+              H("ZZ_C06_PoolStaleUpdate", params={"POOL": 1, "PRE": 2, "POOLMODE": 2}, reach=["drained", "collected-while-writer-delayed"]),
+              H("ZZ_C02_WindowCostUpdate", reach=["drained"]),
                  H("ZZ_C02_PoolStaleUpdate", params={"PRE": 2, "POOL": 1, "POOLMODE": 2}, reach=["drained"], bounds="entry pool on, adversarial reuse, preemptions 2"),
                  H("ZZ_C02_Program", params={"PRE": 1}, reach=["drained"], bounds="2 clients x 2 ops, cap 2, preemptions 1"),
                  H("ZZ_C02_Program", params={"PRE": 0, "WQ": 1}, reach=["drained"], bounds="2 clients x 2 ops, one-slot write queue"),
@@ -316,7 +329,8 @@ PROPS["C13"] = {
     "level_note": _thr_note + "2 callers (thorough 3), preemption bound 1; call-record pool LIFO (thorough: adversarial choice). Set/Delete interleaved with the load of the same key has its own program.",
     "assumptions": ["loader yields once (slow loader) and is otherwise atomic"],
     "outside_bound": ["more than 3 callers", "nested loads"],
-    "quick": [H("ZZ_C13_Group", params={"CALLERS": 2, "PRE": 1}, reach=["all-callers-finished"]),
+    "quick": [H("ZZ_C01_LoadDeleteLoad", params={"PRE": 1}, reach=["history-complete"], bounds="a call that starts after the loaded value was deleted does not share the finished load"),
+              H("ZZ_C13_Group", params={"CALLERS": 2, "PRE": 1}, reach=["all-callers-finished"]),
               H("ZZ_C13_Group", params={"CALLERS": 2, "PRE": 1, "OTHER": 1}, reach=["all-callers-finished"], bounds="plus a caller of another key sharing the record pool, happens-before monitor on"),
               H("ZZ_C13_NotCached", params={"PRE": 1}, reach=["all-callers-finished"], bounds="2 callers x 2 consecutive calls of one key, loader ok/failing, preemptions 1"),
               H("ZZ_C13_Loading", params={"CALLERS": 2, "PRE": 1}, reach=["all-callers-finished"]),
@@ -333,10 +347,12 @@ PROPS["C16"] = {
     "level_note": _thr_note + "Counts are asserted per call (single client) plus the counter's atomicity; concurrent whole-history counting follows from those two, it is not explored as one program.",
     "assumptions": ["hybrid Get is outside the property (stats are in-memory only)"],
     "outside_bound": ["more than 2 concurrent counter updates"],
-    "quick": [H("ZZ_C16_GetCounts", reach=["get-done"]), H("ZZ_C16_GetCounts", params={"LOADING": 1}, reach=["get-done"]),
+    "quick": [H("ZZ_C03_Range", reach=["range-done"], bounds="Range at an arbitrary instant (set time, TTL, read time symbolic, cached clock not refreshed): visits exactly the unexpired keys, once"),
+              H("ZZ_C16_GetCounts", reach=["get-done"]), H("ZZ_C16_GetCounts", params={"LOADING": 1}, reach=["get-done"]),
               H("ZZ_C16_Counter", params={"PRE": 2}, reach=["adds-done"]), H("ZZ_C16_Views", reach=["views-done"]),
               H("ZZ_C04_LateUpdate", reach=["three-ticks"], bounds="EstimatedSize after a cost and TTL update that is applied after its deadline")],
-    "thorough": [H("ZZ_C16_GetCounts", reach=["get-done"]), H("ZZ_C16_GetCounts", params={"LOADING": 1}, reach=["get-done"]),
+    "thorough": [H("ZZ_C03_Range", reach=["range-done"]),
+              H("ZZ_C16_GetCounts", reach=["get-done"]), H("ZZ_C16_GetCounts", params={"LOADING": 1}, reach=["get-done"]),
                  H("ZZ_C16_Counter", params={"PRE": 4, "POOLMODE": 2}, reach=["adds-done"]), H("ZZ_C16_Views", params={"N": 5}, reach=["views-done"])],
 }
 
@@ -349,7 +365,8 @@ PROPS["C11"] = {
     "level_note": "Trusted: go/ssa, executor encoding, z3. " + _gob_note + "Source caches: 4-16 entries, unit or symbolic costs 1..3, optionally after two sample periods of the real hill climber or with the protected region above its size.",
     "assumptions": ["gob round-trips the values it is given (its contract, and the README's precondition on key/value types)", "N=4 entries, capacity 10"],
     "outside_bound": ["gob byte layout and 4 MiB thresholds as byte counts", "more than 4 entries", "arbitrary adaptive-split states (only those reached by the fill script)"],
-    "quick": [H("ZZ_C11_RoundTrip", reach=["loaded"], bounds="4 entries, cap 10, same size, advance <= 2^31 ns symbolic"),
+    "quick": [H("ZZ_C11_RoundTrip", params={"SPLIT": 1, "COSTS": 1, "CAP2": 4}, reach=["loaded"], bounds="smaller target, symbolic costs, regions split over several blocks at arbitrary points"),
+              H("ZZ_C11_RoundTrip", reach=["loaded"], bounds="4 entries, cap 10, same size, advance <= 2^31 ns symbolic"),
               H("ZZ_C11_RoundTrip", params={"COSTS": 1}, reach=["loaded"], bounds="symbolic costs 1..3"),
               H("ZZ_C11_RoundTrip", params={"CAP2": 2}, reach=["loaded"], bounds="smaller target (unit costs)"),
               H("ZZ_C11_RoundTrip", params={"N": 6, "CAP2": 4}, reach=["loaded"], bounds="6 entries, smaller target keeps part of a region (unit costs)"),
@@ -390,7 +407,12 @@ PROPS["C14"] = {
     "level_note": _thr_note + "Secondary store = harness map with a yield in every method (slow store); admission probability 1, 0 and symbolic; one worker (thorough: two); a full hand-off queue is modelled by letting the select in removeEntry take its default branch nondeterministically.",
     "assumptions": ["workers keep up between the calls of the sequential histories (the race program does not assume it)"],
     "outside_bound": ["more than two workers", "histories longer than N (quick 4, thorough 5)"],
-    "quick": [H("ZZ_C14_Seq", params={"N": 4}, reach=["sequence-done", "hit", "promoted-from-secondary"], bounds="N=4 calls, memory capacity 1"),
+    "quick": [H("ZZ_C14_FailedDemotion", params={"PROMOTE": 0}, reach=["evicted"], bounds="newer value evicted, its secondary write fails or succeeds (every call, by choice)"),
+              H("ZZ_C14_FailedDemotion", params={"PROMOTE": 1}, reach=["evicted"]),
+              H("ZZ_C14_SaveLoadHybrid", params={"PROMOTE": 0}, reach=["loaded"], bounds="save/load round trip of a hybrid cache over a secondary tier that holds an older copy"),
+              H("ZZ_C14_SaveLoadHybrid", params={"PROMOTE": 1}, reach=["loaded"]),
+              H("ZZ_C14_Conc", params={"SETUP": 3, "FIXA": 1, "FIXB": 0, "PRE": 1}, reach=["history-complete"], bounds="Set k2 (evicting k1) vs Set k1 from the state promoted-and-overwritten; hybrid linearizability oracle; preemptions 1"),
+              H("ZZ_C14_Seq", params={"N": 4}, reach=["sequence-done", "hit", "promoted-from-secondary"], bounds="N=4 calls, memory capacity 1"),
               H("ZZ_C14_Seq", params={"N": 4, "FULL": 1}, reach=["sequence-done", "hit"], bounds="N=4 calls, hand-off queue may be full at any demotion"),
               H("ZZ_C14_Seq", params={"N": 3, "PROB": 2}, reach=["sequence-done", "hit"], solver="cvc5", bounds="N=3 calls, admission probability symbolic in [0,1]"),
               H("ZZ_C14_StalePromoted", reach=["evicted-again"]), H("ZZ_C14_DeleteRace", params={"PRE": 1}, reach=["settled"]), H("ZZ_C14_Expired", reach=["read"]),
@@ -404,7 +426,14 @@ PROPS["C14"] = {
               H("ZZ_C15_ReloadAfterSecondaryExpiry", reach=["reloaded"], bounds="hybrid loading Get of a key whose only copy, in the secondary tier, has expired (advance 2^29..2^31 ns symbolic)"),
               H("ZZ_C14_LoadingVariants", params={"MODE": 0, "PRE": 1}, reach=["done"], bounds="hybrid loading Get racing a Set of the same key, preemptions 1"),
               H("ZZ_C14_LoadingVariants", params={"MODE": 1}, reach=["done"], bounds="hybrid loading Get after the newer value expired, read time symbolic")],
-    "thorough": [H("ZZ_C14_StaleAfterExpiry", reach=["read"]), H("ZZ_C14_StaleAfterLostDemotion", params={"FULL": 1}, reach=["evicted-again"]),
+    "thorough": [H("ZZ_C14_Conc", params={"SETUP": 0, "PRE": 1}, reach=["history-complete"], bounds="two clients x 1 op from {Set k1, Set k2, Get k1, Delete k1}, empty start"),
+              H("ZZ_C14_Conc", params={"SETUP": 1, "PRE": 1}, reach=["history-complete"], bounds="key 1 demoted at the start"),
+              H("ZZ_C14_Conc", params={"SETUP": 2, "PRE": 1}, reach=["history-complete"], bounds="key 1 promoted and clean at the start"),
+              H("ZZ_C14_Conc", params={"SETUP": 3, "PRE": 1}, reach=["history-complete"], bounds="key 1 promoted and overwritten at the start"),
+              H("ZZ_C14_Conc", params={"SETUP": 3, "FIXA": 1, "FIXB": 0, "FAIL": 1, "PRE": 1}, reach=["history-complete"], bounds="failing secondary writes"),
+              H("ZZ_C14_FailedDemotion", params={"PROMOTE": 0}, reach=["evicted"]), H("ZZ_C14_FailedDemotion", params={"PROMOTE": 1}, reach=["evicted"]),
+              H("ZZ_C14_SaveLoadHybrid", params={"PROMOTE": 0}, reach=["loaded"]), H("ZZ_C14_SaveLoadHybrid", params={"PROMOTE": 1}, reach=["loaded"]),
+              H("ZZ_C14_StaleAfterExpiry", reach=["read"]), H("ZZ_C14_StaleAfterLostDemotion", params={"FULL": 1}, reach=["evicted-again"]),
                  H("ZZ_C14_StaleAfterLostDemotion", params={"PROB": 2}, reach=["evicted-again"], solver="cvc5"),
                  H("ZZ_C14_SetVsGet", params={"PRE": 2}, reach=["both-returned"]), H("ZZ_C14_LoadingVariants", params={"MODE": 0, "PRE": 2}, reach=["done"]), H("ZZ_C14_LoadingVariants", params={"MODE": 1}, reach=["done"]), H("ZZ_C14_UpdateVsEvict", params={"PRE": 2}, reach=["both-returned"]),
                  H("ZZ_C14_DeleteVsGet", params={"PRE": 2}, reach=["settled"]), H("ZZ_C14_HybridLoadingExpiry", reach=["read"]), H("ZZ_C14_Seq", params={"N": 5, "FULL": 1}, reach=["sequence-done", "hit"]), H("ZZ_C14_Seq", params={"N": 4, "PROB": 2}, reach=["sequence-done", "hit"], solver="cvc5"),
@@ -420,12 +449,17 @@ PROPS["C15"] = {
     "level_note": _thr_note + "Secondary store = harness map; one worker; queue never full (the property conditions on it).",
     "assumptions": ["workers given time to keep up (settle after each call)"],
     "outside_bound": ["more than 3 writes", "more than one worker"],
-    "quick": [H("ZZ_C15_Demotion", reach=["filled"]), H("ZZ_C15_Demotion", params={"FAIL": 1}, reach=["filled"], bounds="every failure pattern of 2 demotions"),
+    "quick": [H("ZZ_C15_VisibleWhileDemoted", params={"PRE": 1}, reach=["both-returned"], bounds="hybrid Get racing the (slow) secondary write of the evicted entry: the entry is in one of the tiers at any time"),
+              H("ZZ_C15_VisibleWhileDemoted", params={"PRE": 1, "LOADING": 1}, reach=["both-returned"], bounds="loading variant: no reload"),
+              H("ZZ_C14_FailedDemotion", params={"PROMOTE": 0}, reach=["evicted"], bounds="failing secondary write: error handler per failure, memory within MaxSize"),
+              H("ZZ_C15_Demotion", reach=["filled"]), H("ZZ_C15_Demotion", params={"FAIL": 1}, reach=["filled"], bounds="every failure pattern of 2 demotions"),
               H("ZZ_C15_LoaderDemotion", reach=["loaded-two"]),
               H("ZZ_C15_ReloadAfterSecondaryExpiry", reach=["reloaded"], bounds="loader entry reloaded after its secondary copy expired (advance 2^29..2^31 ns symbolic), then evicted again"),
               H("ZZ_C15_PoolRecycled", params={"POOL": 1}, reach=["recycling"], bounds="entry pool on: the object of a clean promoted entry is recycled for another key, which must still be demoted"),
               H("ZZ_C14_StalePromoted", reach=["evicted-again"], bounds="demote, promote, overwrite, evict again: the overwritten value must reach the secondary tier")],
-    "thorough": [H("ZZ_C14_StalePromoted", reach=["evicted-again"]), H("ZZ_C15_Demotion", params={"N": 4}, reach=["filled"]), H("ZZ_C15_Demotion", params={"FAIL": 1, "N": 4}, reach=["filled"]),
+    "thorough": [H("ZZ_C15_VisibleWhileDemoted", params={"PRE": 2}, reach=["both-returned"]),
+              H("ZZ_C15_VisibleWhileDemoted", params={"PRE": 2, "LOADING": 1}, reach=["both-returned"]),
+              H("ZZ_C14_StalePromoted", reach=["evicted-again"]), H("ZZ_C15_Demotion", params={"N": 4}, reach=["filled"]), H("ZZ_C15_Demotion", params={"FAIL": 1, "N": 4}, reach=["filled"]),
                  H("ZZ_C15_LoaderDemotion", reach=["loaded-two"]),
                  H("ZZ_C15_ReloadAfterSecondaryExpiry", reach=["reloaded"]),
                  H("ZZ_C15_PoolRecycled", params={"POOL": 1}, reach=["recycling"]),
@@ -439,16 +473,18 @@ PROPS["C18"] = {
     "level_note": "Trusted: go/ssa, executor encoding of the unsafe string-header cast, cvc5/z3. Claimed in part: key types up to 8 bytes of scalars; the go1.24 maphash variant is not in this image's default toolchain; hash quality is out of scope.",
     "assumptions": ["xxh3 is a function (uninterpreted)"],
     "outside_bound": ["key types wider than 8 bytes", "struct keys with padding, string/float/interface fields (excluded by the property for pre-1.24)", "go1.24+ hasher"],
-    "quick": [H("ZZ_C18_Hasher", reach=["hashed"], solver="cvc5"), H("ZZ_C18_StringKeyFunc", reach=["hashed"], solver="cvc5"), H("ZZ_C18_Collision", reach=["collided"]),
+    "quick": [H("ZZ_C18_PanicThenOtherKey", reach=["third-get"], bounds="failed (panicking or erroring) load of k1, load of another key of the same shard with an adversarial call-record pool, k1 again"),
+              H("ZZ_C18_Hasher", reach=["hashed"], solver="cvc5"), H("ZZ_C18_StringKeyFunc", reach=["hashed"], solver="cvc5"), H("ZZ_C18_Collision", reach=["collided"]),
               H("ZZ_C18_CollisionLoading", params={"PRE": 1}, reach=["both-loaded"], bounds="two colliding keys loaded concurrently through the loading cache, preemptions 1")],
-    "thorough": [H("ZZ_C18_Hasher", reach=["hashed"], solver="cvc5"), H("ZZ_C18_StringKeyFunc", reach=["hashed"], solver="cvc5"), H("ZZ_C18_Collision", reach=["collided"]),
+    "thorough": [H("ZZ_C18_PanicThenOtherKey", reach=["third-get"]),
+              H("ZZ_C18_Hasher", reach=["hashed"], solver="cvc5"), H("ZZ_C18_StringKeyFunc", reach=["hashed"], solver="cvc5"), H("ZZ_C18_Collision", reach=["collided"]),
                  H("ZZ_C18_Collision", params={"DOOR": 1}, reach=["collided"]), H("ZZ_C18_CollisionLoading", params={"PRE": 2}, reach=["both-loaded"])],
 }
 
 def _c19(pre):
     return [H("ZZ_C19_Pairs", params={"PAIR": p, "PRE": pre}, reach=["pair-done"], bounds=b) for p, b in
             [(0, "Range || Set"), (1, "Len/EstimatedSize || Delete+Set"), (2, "Stats || Get"), (3, "17 Gets (read-buffer drain) || Sets with eviction and listener"),
-             (4, "tick/expiry || SetWithTTL || Get"), (5, "Close || Get/Set"), (6, "Wait || Set"), (7, "SaveCache || Set/Delete"), (8, "SaveCache || tick/expiry || Get"), (9, "loading Get || Delete/Set")]]
+             (4, "tick/expiry || SetWithTTL || Get"), (5, "Close || Get/Set"), (6, "Wait || Set"), (7, "SaveCache || Set/Delete"), (8, "SaveCache || tick/expiry || Get"), (10, "Close || Len / Range"), (11, "Close || EstimatedSize / Stats / Delete"), (9, "loading Get || Delete/Set")]]
 
 PROPS["C19"] = {
     "title": "no data races in the default configuration (bounded)",
